@@ -287,3 +287,6 @@ CHECKS["C05"].update(
     note=CHECKS["C05"]["note"].replace("C05.hostile / C05.hostile2", "C05.hostile / C05.hostile2 / C05.hostile3")
          + " Attribute selector and range texts, the JPEG / deflated-frame / encapsulated-uncompressed decoders on damaged fragments, the deflated "
            "data set transfer syntax and the file meta reader on its own are exercised only by C05.hostile3 (bounded).")
+CHECKS["C04"].update(
+    technique=CHECKS["C04"]["technique"] + "; Verus contract on the extracted token-level DataSetWriter::write (delimiters emitted exactly for undefined-length containers; fragments vs data set items)",
+    note=CHECKS["C04"]["note"] + " The token-level writer DataSetWriter::write is under contract per call (C04.dataset_writer; write_impl abstract); the balance of a whole token stream is the induction over calls and is not machine-composed.")
